@@ -195,6 +195,9 @@ class Kernel:
         self._fp = hashlib.sha256()
         self.n_decisions = 0
         self.n_io = 0
+        self.urandom_log = []
+        self.pipe_hist = cfg.get('pipe_hist', False)
+        self.pipe_hist_data = {}
         self.n_switches = 0
         self.aborting = False
         self.end_reason = None
@@ -795,6 +798,8 @@ class Kernel:
         p.nwritten += m
         if p.tap is not None:
             p.tap(p, a.proc, chunk)
+        if self.pipe_hist:
+            self.pipe_hist_data.setdefault(p.id, bytearray()).extend(chunk)
         self.record('write', fd, m)
         return m
 
@@ -1061,7 +1066,9 @@ class Kernel:
     def urandom(self, n):
         self.enter_quiet()
         r = self.urng
-        return bytes(r.getrandbits(8) for _ in range(n))
+        v = bytes(r.getrandbits(8) for _ in range(n))
+        self.urandom_log.append(v)
+        return v
 
 
 def _never():
